@@ -25,7 +25,9 @@ def snapshot(root):
             p = os.path.join(dirpath, n)
             st = os.lstat(p)
             rel = os.path.relpath(p, root)
-            if stat.S_ISDIR(st.st_mode):
+            if stat.S_ISLNK(st.st_mode):
+                out[rel] = ['l', 0, st.st_mtime_ns, 0, os.readlink(p)]
+            elif stat.S_ISDIR(st.st_mode):
                 out[rel] = ['d', 0, st.st_mtime_ns, stat.S_IMODE(st.st_mode), '']
             else:
                 with open(p, 'rb') as f:
@@ -107,6 +109,13 @@ for t, _ in runner._root_namespace.get_all_datatypes():
     roots.append(str(t.source_file_path))
     closure.add(str(t.source_file_path))
     deps(t, closure)
+# every definition the DSDL front end reads to build the generated types (also those referred to only inside expressions)
+if roots:
+    import pathlib
+    _, also_read = pydsdl.read_files([pathlib.Path(p) for p in roots], pathlib.Path(args.root_namespace).resolve(),
+                                     args.lookup_dir if args.lookup_dir is not None else [],
+                                     allow_unregulated_fixed_port_id=args.allow_unregulated_fixed_port_id)
+    closure.update(str(t.source_file_path) for t in also_read)
 err = None
 try:
     runner.run()
@@ -153,14 +162,24 @@ def main():
                 inv.append(os.path.relpath(os.path.join(dirpath, n), os.path.join(work, d)))
         inventories[d] = sorted(inv)
 
-    base = list(job['args']) + ['-O', 'out'] + [x for lk in job.get('lookups', []) for x in ('-I', lk)]
+    for d in job.get('mkdirs', []):
+        os.makedirs(os.path.join(work, d), exist_ok=True)
+    for link, target in job.get('symlinks', {}).items():
+        os.symlink(target, os.path.join(work, link))
+    outdir = job.get('outdir', 'out')      # as spelled on the command line, relative to `work`
+
+    def real_rel(p):
+        return os.path.relpath(os.path.realpath(os.path.join(work, p)), work)
+    base = list(job['args']) + ['-O', outdir] + [x for lk in job.get('lookups', []) for x in ('-I', lk)]
     root = job['root']
-    res = {'work': work, 'inventories': inventories, 'modes': {}}
+    res = {'work': work, 'inventories': inventories, 'modes': {}, 'real_outdir': real_rel(outdir)}
     s0 = snapshot(work)
+    res['pre_dirs'] = sorted(k for k, v in s0.items() if v[0] == 'd')
     for mode, extra in (('list_outputs', ['--list-outputs']), ('list_inputs', ['--list-inputs']), ('dry_run', ['--dry-run'])):
         rc, out, err = nnvg(work, base + extra + [root])
         s1 = snapshot(work)
         res['modes'][mode] = {'rc': rc, 'listing': split_list(out) if mode != 'dry_run' else [], 'stdout_len': len(out),
+                              'listing_real': [real_rel(x) for x in split_list(out)] if mode == 'list_outputs' else [],
                               'fs_diff': snap_diff(s0, s1)[:20], 'stderr': err if rc != 0 else ''}
     rc, out, err = nnvg(work, base + [root])
     s4 = snapshot(work)
@@ -201,7 +220,7 @@ def main():
     probes = job.get('probes', [])
     res['probes'] = []
     if probes and res['modes']['real']['rc'] == 0:
-        basemap = content_map(os.path.join(work, 'out'))
+        basemap = content_map(os.path.realpath(os.path.join(work, outdir)))
         pargs = lambda o: list(job['args']) + ['-O', o] + [x for lk in job.get('lookups', []) for x in ('-I', lk)] + [root]
         rc, _, _ = nnvg(work, pargs('out_ctl'))
         ctl = content_map(os.path.join(work, 'out_ctl'))
